@@ -221,7 +221,8 @@ func (t DeployTransition) do(env *Environment) (err error) {
 	deploymentTimeout := acquireDeploymentTimeout(wf)
 
 	wfStatus := wf.GetStatus()
-	if wfStatus != task.ACTIVE {
+	// Only task roles that get a task and call roles ever report a status. With neither there is nothing to wait for.
+	if wfStatus != task.ACTIVE && (len(taskDescriptors) != 0 || len(callHooks) != 0) {
 		log.WithField("partition", env.Id().String()).
 			Infof("waiting %s for workflow to become active", deploymentTimeout.String())
 	WORKFLOW_ACTIVE_LOOP:
